@@ -2,6 +2,8 @@ import TpmProofs.TruncStreamPump
 import TpmProofs.Props.AcceptIff
 import TpmProofs.Props.C05
 import TpmProofs.Props.C10
+import TpmProofs.StreamSilent
+import TpmProofs.Props.C04
 /-!
 # C05 / C10 for command/response streams: a stream cut anywhere
 
@@ -15,9 +17,8 @@ namespace C05
 ends cleanly, or rejects `x` — decoding the first `k` bytes ends with `InputStreamBytesDepletedError`, or silently when the
 cut falls exactly where the run on `x` starts its next message; it has then shown exactly the events the run on `x` emits up
 to byte count `k` (the fields that are complete within the prefix, in order), minus the announcement of the message that would
-start at the cut.  (`AcceptIff.stream_accept_iff`: the stream *walker* ends cleanly iff the input is a sequence of well-formed
-exchanges, and then the pump ends silently — `stream_run`; that the pump ends silently *only* then is not a theorem: it is
-monitored on the real code and tied by correspondence.) -/
+start at the cut.  (That a stream run ends silently *only* at a message boundary of a well-formed stream is
+`c05_stream_silent_iff` below.) -/
 theorem c05_stream_truncated (x : List Byte) (k : Nat) (hk : k < consumed Generated.msgTables .stream x) :
     ((marshalRun true Generated.msgTables .stream (x.take k)).outcome = .depleted ∨
      (marshalRun true Generated.msgTables .stream (x.take k)).outcome = .silent) ∧
@@ -35,6 +36,19 @@ theorem c05_stream_walker (x : List Byte) (k : Nat) (hk : k < consumed Generated
 /-- non-vacuity: a `TPM2_Startup` command (12 bytes) is consumed entirely by the stream decoder -/
 example : consumed Generated.msgTables .stream [0x80, 0x01, 0, 0, 0, 0x0c, 0, 0, 0x01, 0x44, 0, 0] = 12 := by
   decide +kernel
+
+/-- **C05, a stream may end cleanly only at a message boundary** (every input): a strict stream decode ends without an error
+— silently — if and only if the input is a sequence of well-formed exchanges, each response well-formed for its command's code
+and encryption flag, optionally followed by one well-formed command -/
+theorem c05_stream_silent_iff (x : List Byte) :
+    (marshalRun true Generated.msgTables .stream x).outcome = .silent ↔
+      ∃ xs last evs, specStream Generated.msgTables rootPath last xs = some (x, evs) := by
+  constructor
+  · intro h
+    exact (AcceptIff.stream_accept_iff x).mp
+      (silent_walker_ok C04.strict_link Generated.msgTables C04.c04_tables.1 AcceptIff.tables_wf x h)
+  · rintro ⟨xs, last, evs, h⟩
+    rw [MsgWF.c09_stream last xs x evs h]
 
 end C05
 
